@@ -430,7 +430,25 @@ func highClock(res *core.Result, r *core.RNG) (*srv.World, error) {
 			try(now + 432)
 		}
 	}
-	w.SetNow(off + 100) // no rotation may be due when the server shuts down
+	// clock and timeslot at OPPOSITE ends of the 32-bit range: their distance is about 2^32, not the small
+	// number a wrapped (serial-number style) subtraction gives.  (a) window at the top, clock at the bottom
+	for _, now := range []uint32{100, 0, 431} {
+		w.SetNow(now)
+		for _, ts := range []uint32{1<<32 - 300, 1<<32 - 257, off + 3000, now - 1, now - 432} {
+			p++
+			deliver(res, w, a.report(w, d0, ts, p, d0.K), "opposite-ends", false)
+		}
+	}
+	// (b) window at the bottom, clock at the top
+	w.SetOffset(0)
+	for _, now := range []uint32{1<<32 - 100, 1<<32 - 1, 1<<32 - 432} {
+		w.SetNow(now)
+		for _, ts := range []uint32{50, 0, 331, now + 150, now + 432, 4031} {
+			p++
+			deliver(res, w, a.report(w, d0, ts, p, d0.K), "opposite-ends", false)
+		}
+	}
+	w.SetNow(100) // no rotation may be due when the server shuts down
 	w.SnapHop()
 	return w, nil
 }
@@ -646,7 +664,7 @@ func reportsWorker(res *core.Result, r *core.RNG, tier, out string) error {
 		}
 		finishWorld(res, w, &items)
 	}
-	res.Required = []string{"dgram.udp-short79-zero-tail", "dgram.udp-short79", "dgram.udp-long-valid-prefix", "dgram.now+432", "dgram.now+433", "dgram.now-432", "dgram.now-433", "dgram.power0", "dgram.power1", "dgram.power2",
+	res.Required = []string{"dgram.opposite-ends", "dgram.udp-short79-zero-tail", "dgram.udp-short79", "dgram.udp-long-valid-prefix", "dgram.now+432", "dgram.now+433", "dgram.now-432", "dgram.now-433", "dgram.power0", "dgram.power1", "dgram.power2",
 		"dgram.short79", "dgram.long-valid-prefix", "dgram.signed-by-other-device", "dgram.signed-by-gca", "dgram.signed-by-server", "dgram.unknown-id",
 		"dgram.banned-device", "dgram.bitflip", "dgram.field-swap", "dgram.window-start-1", "dgram.window-start", "dgram.window-end-1", "dgram.window-end",
 		"dgram.lowclock-ts0", "dgram.highclock", "dgram.malleated-twin", "outcome.changed"}
